@@ -23,7 +23,9 @@ PARTIAL = {
 RULE = ("API-built documents (3..9 rows x 2..6 columns, optional second table at given coordinates) and fixture documents x a "
         "script over {row_height, col_width, header counts, table/sheet name, caption text, caption / name visibility} x 0..6 "
         "border strokes of dyadic widths 0.25..8 pt on the affected rows/columns (before and after the sizes are set) x "
-        "sizes queried or not before saving x 1..3 save/reopen cycles; every observable of every table compared with a twin "
+        "sizes queried or not before saving x 1..3 save/reopen cycles; 30 % of the API-built histories end in a structural tail "
+        "(table added below, add_row(1..6) / add_column(1..2) / delete_row at the end / resize) with 0..3 further strokes on the "
+        "last row / column or running past them (oracle only); every observable of every table compared with a twin "
         "document that was built the same way and only read. One protocol line per axis (rows, columns) and one for the labels "
         "of the scripted table. Non-trivial = a history with at least one explicit size, border or label change, or a fixture "
         "table with a non-default stored size; distinct by protocol line")
@@ -31,7 +33,9 @@ ASSUMPTIONS = [
     "sizes and allowances cross the boundary as exact rationals of the floats the code computes with (stored sizes are binary32; "
     "the allowance max/2 + max/2 is taken from the same float expression); float addition of an integer size and an allowance is "
     "assumed exact (border widths in the generated histories are multiples of 0.25 pt)",
-    "border widths survive save/reopen (property C15), so the allowance function is the same before and after a cycle",
+    "border widths survive save/reopen (property C15), so the allowance function is the same before and after a cycle; since "
+    "fixes/C15-borders-refreshed-after-cell-recreation.patch this includes the cells of appended rows / columns (they report the "
+    "strokes along their edges in the open document too - Props.C15.open_eq_saved_edits)",
     "an integer size below 2^24 is exactly representable in the binary32 field it is written to",
     "a row's own height (reported minus whole points of allowance) is not 0: 0 is how the file says 'default' (hypothesis "
     "Storable; generated sizes are >= 10 pt)",
@@ -329,9 +333,19 @@ def history(sub: Ctx, seed: int, h: int, fixture):
         # height (rows added / removed / resized), or the other way round; positions are read before the save (twin) and
         # after the reopen.  The size / label model lines are not emitted for these histories (oracle only).
         structural = True
-        # strokes are left out of these histories: a row / column added next to a stroked edge is the recorded finding
-        # `size-changes-on-reopen-after-add-next-to-stroke` (fixed scenario `stroke-then-add-row`)
-        script = [op for op in script if op[0] != "stroke"]
+        # strokes stay in these histories, and some are put on the edges the tail appends rows / columns to (or run past them):
+        # the appended cells share those edges (repaired defect `size-changes-on-reopen-after-add-next-to-stroke`,
+        # fixes/C15-borders-refreshed-after-cell-recreation.patch; fixed scenario `stroke-then-add-row`)
+        for _ in range(rng.choice([0, 1, 2, 3])):
+            k = rng.random()
+            if k < 0.35:
+                script.append(["stroke", "bottom", nr - 1, rng.randrange(nc), rng.randint(1, 3), rng.choice(WIDTHS)])
+            elif k < 0.7:
+                script.append(["stroke", "right", rng.randrange(nr), nc - 1, rng.randint(1, 3), rng.choice(WIDTHS)])
+            elif k < 0.85:
+                script.append(["stroke", rng.choice(["left", "right"]), nr - 1, rng.randrange(nc), rng.randint(2, 4), rng.choice(WIDTHS)])
+            else:
+                script.append(["stroke", rng.choice(["top", "bottom"]), rng.randrange(nr), nc - 1, rng.randint(2, 4), rng.choice(WIDTHS)])
         hdr = max([op[1] for op in script if op[0] == "hdr_rows"] + [tb_t.num_header_rows])
         grow = [["addrow", rng.randint(1, 6)], ["rowh", rng.randrange(min(nr, hdr + 1)), rng.randint(40, 150)],
                 ["addcol", rng.randint(1, 2)]]   # (a row that no `delrow` of the tail removes)
